@@ -29,7 +29,8 @@ def check(tier, seed, replay=None):
     cpath = os.path.join(d, "cases.ndjson")
     core.write_ndjson(cpath, cases)
     events = core.rv(["std", "--cases", cpath])
-    cost = [5 ** min(8, sum(2 if v["kind"] == "real" else 1 for v in e["vars"])) for e in events]
+    # (the grid has 5 points per IMAGE column - split halves, slacks, surpluses -: that is what a chunk costs)
+    cost = [5 ** min(9, len(e["std"]["vars"])) if e.get("out") == "ok" and "std" in e else 1 for e in events]
     v = core.validate(SPEC_DIR, "StdFormTrace.tla", "StdFormTrace.cfg", events, prop, prop, chunks=12, cost=cost)
     byid = {e["id"]: e for e in events}
     for r in v.rejects:
